@@ -72,6 +72,9 @@ type MemStorage struct {
 	TrimToHints bool
 	// ShareLabels hands out the very same label slices on every call.
 	ShareLabels bool
+	// NoTrimToQuerier disables the default of a real TSDB: a querier opened for [mint, maxt]
+	// only sees the samples inside that range.
+	NoTrimToQuerier bool
 
 	hook    HookFn
 	counter int64
@@ -129,7 +132,6 @@ func (q *memQuerier) LabelNames(...*labels.Matcher) ([]string, storage.Warnings,
 	return nil, nil, nil
 }
 func (q *memQuerier) Close() error {
-	q.m.ev(EvClose, nil)
 	q.m.mu.Lock()
 	q.m.Closes++
 	q.m.OpenNow--
@@ -137,6 +139,7 @@ func (q *memQuerier) Close() error {
 		q.m.DoubleClose++
 	}
 	q.m.mu.Unlock()
+	q.m.ev(EvClose, nil)
 	return nil
 }
 
@@ -172,6 +175,15 @@ func (q *memQuerier) Select(sortSeries bool, hints *storage.SelectHints, matcher
 			continue
 		}
 		smp := sd.Samples
+		if !q.m.NoTrimToQuerier {
+			var tr []Sample
+			for _, s := range smp {
+				if s.T >= q.mint && s.T <= q.maxt {
+					tr = append(tr, s)
+				}
+			}
+			smp = tr
+		}
 		if q.m.TrimToHints && hints != nil {
 			var tr []Sample
 			for _, s := range smp {
